@@ -14,6 +14,7 @@
 EXTENDS IppOps, Json
 CONSTANTS MaxCalls, MaxExtra, HeaderAttrs, OpsUnderTest
 Enc == INSTANCE IppEncoder WITH SetSepTag <- "own", RepeatedOpGroups <- "kept", MOrder <- <<>>
+Par == INSTANCE IppParser WITH Pairing <- "byname", DepthLimit <- 32, ShortValue <- "error"
 
 Strs  == {"7331", "7332"}                                 \* "s1", "s2"
 JAttr == {[name |-> "6178", v |-> [k |-> "V", id |-> 1]], [name |-> "6178", v |-> [k |-> "V", id |-> 2]],
@@ -50,6 +51,14 @@ FreeNames == {n \in DOMAIN Group1 : ~Enc!InSeq(n, HeaderAttrs)}
 BuildersAsDeclared == extras = <<>> => Req = Declared(op, calls, 7, UriV)                            \* C10
 HeaderFirst == \A ord \in Enc!SeqPerms(FreeNames) : HeaderOrderOK(1, Enc!OpOrder(Group1, ord))       \* C09
 OpGroupFirst == Final[1].tag = 1
+(* L9 composition: whatever a builder (plus later additions) produces, encoded under every map order, is a    *)
+(* well-formed RFC 8010 stream whose independent reading - and whose parse by the parser state machine - is   *)
+(* the request again (builder -> encoder -> wire -> parser, at design level)                                  *)
+EndToEnd == \A ord \in Enc!SeqPerms(DOMAIN Group1 \cup UNION {DOMAIN Final[i].attrs : i \in 1..Len(Final)}) :
+              LET ts == Enc!EncMsg(Final, ord)
+                  r  == Reading(ts)
+                  p  == Par!Run(ts)
+              IN r.ok /\ NormMsg(r.v) = NormMsg(Final) /\ p.st = "ok" /\ NormMsg(p.groups) = NormMsg(Final)
 GenCalls  == extras = <<>> => PrintT(<<"CASE", ToJson([op |-> op, calls |-> calls])>>)
 GenExtras == PrintT(<<"CASE", ToJson([op |-> op, calls |-> calls, extras |-> extras])>>)
 =============================================================================
